@@ -98,7 +98,14 @@ def generate() -> dict:
     for modname, qual, pats in TARGETS:
         modobj = importlib.import_module(modname)
         src = Path(inspect.getsourcefile(modobj)).read_text()
-        fn = find_function(ast.parse(src), qual)
+        tree = ast.parse(src)
+        fn = find_function(tree, qual)
+        module_funcs = {st.name: st for st in tree.body if isinstance(st, (ast.FunctionDef, ast.AsyncFunctionDef))}
+        class_funcs = {}
+        if '.' in qual:
+            for st in tree.body:
+                if isinstance(st, ast.ClassDef) and st.name == qual.split('.')[0]:
+                    class_funcs = {m.name: m for m in st.body if isinstance(m, (ast.FunctionDef, ast.AsyncFunctionDef))}
         hit = {p: 0 for p in pats}
         tag = '%s.%s' % (modname, qual)
 
@@ -113,8 +120,41 @@ def generate() -> dict:
                         return p
             return None
 
+        inlining: list = []
+
+        def local_helper(c: ast.Call):
+            """a call of a plain function of the same module (bare name) or of a method of the same class (self.x /
+            cls.x): its skeleton is inlined at the call site, so that moving code into a helper keeps the skeleton"""
+            f = c.func
+            cand = None
+            if isinstance(f, ast.Name):
+                cand = module_funcs.get(f.id)
+            elif isinstance(f, ast.Attribute) and isinstance(f.value, ast.Name) and f.value.id in ('self', 'cls'):
+                cand = class_funcs.get(f.attr)
+            if cand is None or cand is fn or cand in inlining or len(inlining) >= 3:
+                return None
+            # only helpers that (transitively) hold one of this target's designated risky calls are inlined: the
+            # skeleton stays what it was for every other call
+            return cand if holds_pattern(cand, 3) else None
+
+        def holds_pattern(helper, depth) -> bool:
+            for sub in ast.walk(helper):
+                if isinstance(sub, ast.Call):
+                    if match_call(sub):
+                        return True
+                    f = sub.func
+                    nxt = None
+                    if isinstance(f, ast.Name):
+                        nxt = module_funcs.get(f.id)
+                    elif isinstance(f, ast.Attribute) and isinstance(f.value, ast.Name) and f.value.id in ('self', 'cls'):
+                        nxt = class_funcs.get(f.attr)
+                    if nxt is not None and nxt is not helper and nxt is not fn and depth > 0 and holds_pattern(nxt, depth - 1):
+                        return True
+            return False
+
         def calls_in(node) -> list:
-            """risky calls syntactically inside an expression / simple statement, in source order"""
+            """risky calls syntactically inside an expression / simple statement, in source order; calls of
+            same-module helpers are replaced by the helper's own skeleton"""
             res = []
             for sub in ast.walk(node):
                 if isinstance(sub, (ast.Lambda, ast.FunctionDef, ast.AsyncFunctionDef, ast.ClassDef)) and sub is not node:
@@ -122,10 +162,23 @@ def generate() -> dict:
                 if isinstance(sub, ast.Call):
                     p = match_call(sub)
                     if p:
-                        res.append((sub.lineno, sub.col_offset, p))
-            res.sort()
+                        res.append((sub.lineno, sub.col_offset, 0, p))
+                    else:
+                        h = local_helper(sub)
+                        if h is not None:
+                            res.append((sub.lineno, sub.col_offset, 1, h))
+            res.sort(key=lambda r: r[:3])
             outl = []
-            for _, _, p in res:
+            for _, _, kind, p in res:
+                if kind == 1:
+                    inlining.append(p)
+                    try:
+                        inner = block(p.body)
+                    finally:
+                        inlining.pop()
+                    if 'SCall' in inner or 'SRaise' in inner or 'SReraise' in inner:
+                        outl.append('SBranch [%s]' % inner)
+                    continue
                 hit[p] += 1
                 cid = len(g.calls)
                 g.calls.append((cid, tag, p, [g.cls(c, modobj) for c in pats[p]]))
